@@ -767,8 +767,14 @@ func runC30(c *Ctx) {
 		}
 		return false
 	}
-	c.ob("C30.b validator-shape", "mqtt.IsValidFilter rejects the empty subscription filter", c.pos(f.Pos()), has("builtin.len(filter) == 0"), "")
-	c.ob("C30.b validator-shape", "mqtt.IsValidFilter compares the position of '#' with the last position", c.pos(f.Pos()), has("strings.IndexRune(filter, 35)", "builtin.len(filter) - 1"), "")
+	c.ob("C30.b validator-shape", "mqtt.IsValidFilter rejects the empty subscription filter", c.pos(f.Pos()), has("builtin.len(filter) == 0") || has(`filter == ""`), "")
+	hashPos := false
+	for _, idx := range []string{"strings.IndexRune(filter, 35)", "strings.IndexByte(filter, 35)", `strings.Index(filter, "#")`, `strings.IndexAny(filter, "#")`} {
+		if has(idx, "builtin.len(filter) - 1") {
+			hashPos = true
+		}
+	}
+	c.ob("C30.b validator-shape", "mqtt.IsValidFilter compares the position of '#' with the last position", c.pos(f.Pos()), hashPos, "")
 	rts := runeTests(f)
 	c.ob("C30.b validator-shape", "mqtt.IsValidFilter rejects '+' in publish topics", c.pos(f.Pos()), looksFor(rts, "filter", '+'), "")
 	c.ob("C30.b validator-shape", "mqtt.IsValidFilter rejects '#' in publish topics", c.pos(f.Pos()), looksFor(rts, "filter", '#'), "")
